@@ -44,8 +44,8 @@ var c15Pool = []system.Route{
 	rt("2a00::/16"),
 }
 
-func c15Apply(c c15Case, routes []system.Route) ([]ndp.Option, error) {
-	r := &Route{
+func c15Plugin(c c15Case, cur *[]system.Route) *Route {
+	return &Route{
 		Auto:       true,
 		Prefix:     netip.MustParsePrefix("::/0"),
 		Preference: ndp.Preference(c.Stanza.Pref),
@@ -55,9 +55,17 @@ func c15Apply(c c15Case, routes []system.Route) ([]ndp.Option, error) {
 			if c.SrcErr {
 				return nil, errVerifSource
 			}
-			return append([]system.Route(nil), routes...), nil
+			return append([]system.Route(nil), (*cur)...), nil
 		},
 	}
+}
+
+func c15Apply(c c15Case, routes []system.Route) ([]ndp.Option, error) {
+	cur := routes
+	return c15ApplyOn(c15Plugin(c, &cur))
+}
+
+func c15ApplyOn(r *Route) ([]ndp.Option, error) {
 	before := fmt.Sprintf("%v %v %v %v %v %v", r.Auto, r.Prefix, r.Preference, r.Lifetime, r.Epoch, r.Deprecated)
 	ra := &ndp.RouterAdvertisement{Options: []ndp.Option{vkSentinel()}}
 	err := r.Apply(ra)
@@ -139,6 +147,27 @@ func c15Prop(k *verifkit.Kit) func(c c15Case) error {
 				sig = "C15/maximal-route-dropped"
 			}
 			return verifkit.Violf(sig, "dump %v: want routes %v, got %v", c.Routes, want, gp)
+		}
+		// history on ONE plugin object: the route dump changes between RAs
+		if len(c.Routes) > 1 {
+			cur := c.Routes
+			pl := c15Plugin(c, &cur)
+			for step, dump := range [][]system.Route{c.Routes, c.Routes[1:], c.Routes[:len(c.Routes)/2], c.Routes} {
+				cur = dump
+				g, err := c15ApplyOn(pl)
+				if err != nil {
+					return verifkit.Violf("C15/unexpected-error", "Apply %d on the same plugin failed: %v", step, err)
+				}
+				var gp2 []netip.Prefix
+				for _, o := range g {
+					if ri, ok := o.(*ndp.RouteInformation); ok {
+						gp2 = append(gp2, netip.PrefixFrom(ri.Prefix, int(ri.PrefixLength)))
+					}
+				}
+				if w := verifref.ExpandRoutes(dump); fmt.Sprint(gp2) != fmt.Sprint(w) {
+					return verifkit.Violf("C15/stale-or-accumulated-state", "Apply %d on the same plugin with dump %v: want %v got %v", step, dump, w, gp2)
+				}
+			}
 		}
 		if len(c.Perm) > 0 && len(c.Routes) > 0 {
 			got2, err := c15Apply(c, vkPermute(c.Routes, c.Perm))
